@@ -154,54 +154,94 @@ func ruleTransformers(c *eng.Ctx) {
 			c.Undec(R, sp.fn, token.NoPos, "anchor function not found")
 			continue
 		}
-		pre := eng.NewSym(gsT, "gs")
-		want := eng.NewSym(gsT, "gs")
-		args := []any{&eng.Ptr{Target: pre}}
-		named := map[string]*eng.Node{}
 		if len(fn.Params) != len(sp.params)+1 {
 			c.Viol(R, sp.fn, fn.Pos(), fmt.Sprintf("signature changed: %d parameters, specification has %d", len(fn.Params)-1, len(sp.params)))
 			continue
 		}
-		for i, pn := range sp.params {
-			a := eng.NewSym(fn.Params[i+1].Type(), pn)
-			named[pn] = a
-			args = append(args, a)
-		}
-		sp.expect(want, named)
-		it := &eng.Interp{MaxDepth: 5}
-		rets, ok, why := it.Eval(fn, args, 0)
-		if !ok {
-			c.Undec(R, sp.fn, fn.Pos(), "transformer is outside the straight-line fragment: "+why)
-			continue
-		}
-		var diffs []string
-		if sp.fn == gsType+"GetTextPosition" {
-			// rise := 0
-			for _, r := range rets {
-				if n, ok := r.(*eng.Node); ok && n.Leaf != nil {
-					n.Leaf = n.Leaf.Subst("gs.Text.Rise", eng.PConst(0))
-				}
+		// a transformer with branches but no loop is checked path by path: on each path the identity must
+		// hold with the path's `operand == constant` guards substituted (a fast path for special operands
+		// must agree with the general formula on exactly those operands)
+		paths := [][]*ssa.BasicBlock{nil}
+		if len(fn.Blocks) > 1 {
+			paths = eng.AcyclicPaths(fn, 64)
+			if paths == nil {
+				c.Undec(R, sp.fn, fn.Pos(), "transformer has a loop or too many paths: outside the interpreted fragment")
+				continue
 			}
 		}
-		eng.Diff(pre, want, "gs", &diffs)
-		if sp.result != nil {
-			exp := sp.result(eng.NewSym(gsT, "gs"), named)
-			if len(rets) != len(exp) {
-				diffs = append(diffs, fmt.Sprintf("returns %d values, specification has %d", len(rets), len(exp)))
-			} else {
-				for i, e := range exp {
-					n, ok := rets[i].(*eng.Node)
-					if !ok || n.Leaf == nil || !n.Leaf.Equal(e) {
-						got := "<uninterpreted>"
-						if ok && n.Leaf != nil {
-							got = n.Leaf.String()
-						} else if ok && n.Opaque != "" {
-							got = "<" + n.Opaque + ">"
-						}
-						diffs = append(diffs, fmt.Sprintf("result %d: got %s, specified %s", i, got, e.String()))
+		var diffs []string
+		var trace []string
+		undec := ""
+		for pi, path := range paths {
+			pre := eng.NewSym(gsT, "gs")
+			want := eng.NewSym(gsT, "gs")
+			args := []any{&eng.Ptr{Target: pre}}
+			named := map[string]*eng.Node{}
+			for i, pn := range sp.params {
+				a := eng.NewSym(fn.Params[i+1].Type(), pn)
+				named[pn] = a
+				args = append(args, a)
+			}
+			sp.expect(want, named)
+			it := &eng.Interp{MaxDepth: 5, Path: path}
+			rets, ok, why := it.Eval(fn, args, 0)
+			trace = append(trace, it.Trace...)
+			if !ok {
+				undec = why
+				break
+			}
+			pre.SubstAll(it.Subst)
+			want.SubstAll(it.Subst)
+			var pd []string
+			if sp.fn == gsType+"GetTextPosition" {
+				// rise := 0
+				for _, r := range rets {
+					if n, ok := r.(*eng.Node); ok && n.Leaf != nil {
+						n.Leaf = n.Leaf.Subst("gs.Text.Rise", eng.PConst(0))
 					}
 				}
 			}
+			eng.Diff(pre, want, "gs", &pd)
+			if sp.result != nil {
+				exp := sp.result(eng.NewSym(gsT, "gs"), named)
+				if len(rets) != len(exp) {
+					pd = append(pd, fmt.Sprintf("returns %d values, specification has %d", len(rets), len(exp)))
+				} else {
+					for i, e := range exp {
+						n, ok := rets[i].(*eng.Node)
+						if ok && n.Leaf != nil {
+							for name, r := range it.Subst {
+								n.Leaf = n.Leaf.Subst(name, eng.PRat(r))
+								e = e.Subst(name, eng.PRat(r))
+							}
+						}
+						if !ok || n.Leaf == nil || !n.Leaf.Equal(e) {
+							got := "<uninterpreted>"
+							if ok && n.Leaf != nil {
+								got = n.Leaf.String()
+							} else if ok && n.Opaque != "" {
+								got = "<" + n.Opaque + ">"
+							}
+							pd = append(pd, fmt.Sprintf("result %d: got %s, specified %s", i, got, e.String()))
+						}
+					}
+				}
+			}
+			if len(pd) > 0 && len(paths) > 1 {
+				var g []string
+				for k, v := range it.Subst {
+					g = append(g, k+"="+v.RatString())
+				}
+				sort.Strings(g)
+				for i := range pd {
+					pd[i] = fmt.Sprintf("[path %d, with %s] %s", pi+1, strings.Join(g, ","), pd[i])
+				}
+			}
+			diffs = append(diffs, pd...)
+		}
+		if undec != "" {
+			c.Undec(R, sp.fn, fn.Pos(), "transformer is outside the straight-line fragment: "+undec)
+			continue
 		}
 		if len(diffs) > 0 {
 			if len(diffs) > 4 {
@@ -209,7 +249,7 @@ func ruleTransformers(c *eng.Ctx) {
 			}
 			c.Viol(R, sp.fn, fn.Pos(), sp.doc+" — implemented transformer differs from ISO 32000: "+strings.Join(diffs, "; "))
 		} else {
-			c.Ok(R, sp.fn, fn.Pos(), sp.doc+" (all state cells equal the specification; inlined: "+strings.Join(dedupStr(it.Trace), ",")+")")
+			c.Ok(R, sp.fn, fn.Pos(), sp.doc+" (all state cells equal the specification; inlined: "+strings.Join(dedupStr(trace), ",")+fmt.Sprintf("; %d path(s)", len(paths))+")")
 		}
 	}
 
